@@ -160,6 +160,53 @@ CHECKS = {
         note=COMMON_NOTE + " numpy trunc/arange/linspace/boolean-mask semantics and IEEE rounding in get_native_grids are modelled and bridged per case (guard band 1e-9 cell), not verified.",
         technique="Coq proof (Z/Q arithmetic with lia, computation on the translated table lifted by lemmas) + vm_compute correspondence on synthetic tiles",
         design="5/C20"),
+    "C05": dict(
+        text=("Theorems (closed under the global context) about the model of collocate_filesets - find, the C03 file matching with "
+              "coverages floored to seconds and widened by max_interval, array_split over the workers, the per-worker bundling "
+              "state machine with final flush, and a transition system of the bounded result queue: union_over_matches / "
+              "pipeline_exact - the collocations emitted over all workers and bundles are exactly collocate(all data of A, all data "
+              "of B), each once, for EVERY process count, bundle mode and split of the data into files; an unreadable file removes "
+              "exactly its own pairs; bundling is lossless; the queue yields exactly what was put under EVERY interleaving "
+              "(queue_exactly_once, queue_bounded, parent never stuck), with the weaker code (no final drain / flush) refuted. "
+              "Collocator.collocate (C04) enters as a Section variable assumed exact, FileSet.find by its specification. Output to a "
+              "fileset is lossless only under pairwise distinct rendered names; same_name_overwrites refutes it otherwise (open "
+              "finding F-C05-3, printed as KNOWN-FINDING). Tie: end-to-end runs of collocate_filesets / Collocations.search with 1-4 "
+              "processes and a pickle handler, compared with the specification evaluated in Coq (independent long-double chord "
+              "oracle), logged queue histories replayed in the queue model."),
+        note=COMMON_NOTE + " multiprocessing.Queue (a dead worker has nothing in flight), real OS scheduling, pickling and killed workers are outside the model; "
+             "the queue bound is a theorem of the model only.",
+        technique="Coq proof (NoDup/Permutation refinement to the brute-force collocation; invariants of the bundling loop and of a queue transition system over all interleavings) + end-to-end differential runs with queue traces evaluated in Coq",
+        design="5/C05"),
+    "C11": dict(
+        text=("Theorems (closed under the global context) about an executable model of FileSet write / read / collect / find / move / "
+              "copy / convert / delete on a disk = finite map path -> content, file names from the proved C02 renderer/parser and "
+              "compression decided as in files/utils.py: move_conserves (with pairwise distinct fresh target names every selected "
+              "file ends under exactly the name the target template generates from its own times and placeholder values, with the "
+              "same bytes or the bytes recoded through both handlers, originals removed iff not copy, every other path unchanged), "
+              "progress, write_read and convert_reads_back (read_args / write_args / post_reader and (de)compression as "
+              "composition), written_is_found (exact period, via C02), selection_exact, delete_exact, dry_run_noop, and frame "
+              "theorems lifted by induction to all operation histories. Handlers (pickle / JSON user handlers, typhon CSV, typhon "
+              "NetCDF4) and codecs are Section variables assumed only to round-trip; their fidelity is exercised, not proved. Tie: "
+              "random histories on real FileSets in child processes; after every operation the whole tree is canonicalised "
+              "independently of typhon and compared with the model's step evaluated inside Coq; values read back are compared with "
+              "what was written. Not proved: written_is_found for partially written end fields; independence of worker scheduling (C10)."),
+        note=COMMON_NOTE + " find() is taken as its brute-force filter (C01); worker pools sequentialised (C10); moves whose target names collide are outside the hypotheses and not compared; NetCDF4 only in the thorough tier, single-threaded, in a child process.",
+        technique="Coq proof (induction over the selected files and over operation histories on a finite-map disk, reuse of the C02 round-trip theorems) + vm_compute correspondence of per-step tree listings from child-process runs of the real FileSet",
+        design="5/C11"),
+    "C16": dict(
+        text=("Theorems (closed under the global context): the boolean checker closest_ok decides the property's specification for "
+              "every population, filter, exclusion and timestamp (closest_ok_iff_spec: the answer is a candidate - a file meeting "
+              "[t-P, t+P) that passes filters and exclusions -, covers t whenever some candidate does, otherwise minimises the "
+              "end-point distance, and is absent exactly when there is no candidate; ties accepted). The model of find_closest - "
+              "exact-name short cut through C02's render, window of one sub-directory period, first covering file, else nearest end "
+              "point - meets that specification whenever coverages are well formed and the timestamp is at the resolution of the "
+              "names (model_meets_spec, none_iff_no_candidate, answer_is_candidate, exact_name_covers via C02); single-file filesets "
+              "answer with their file; the code as found is refuted (asis_refuted). Tie: FileSet.find_closest / fileset[t] / "
+              "fileset[t, filters] on harness-built trees, every answer judged inside Coq by the certified checker "
+              "(accepted_iff_spec makes every rejection a failing input)."),
+        note=COMMON_NOTE + " The candidate set is the brute-force specification of FileSet.find (C01), name parsing is C02's, exclusion periods C03's; Python re/glob/datetime exercised, not proved.",
+        technique="Coq proof of a certified relational checker (closest_ok <-> ClosestSpec) and of the algorithm model against the brute-force specification + differential execution judged inside Coq (vm_compute)",
+        design="5/C16"),
 }
 
 
